@@ -309,7 +309,11 @@ func (c *Ctx) Explore(o ExploreOpts) {
 				// is not a long execution but one that does not end: a spin or a retry loop whose exit
 				// condition can no longer become true (livelock). Anything closer to the default is only
 				// reported as a cap (the horizon may simply be too small for the scenario).
-				if baseSteps > 0 && x.Steps > 10*baseSteps {
+				if baseSteps == 0 {
+					// not even one execution of this scenario has come to an end so far
+					hangs++
+					c.Violation(o.Prop+"/livelock/"+o.Name, "the execution does not terminate within "+strconv.Itoa(x.Steps-1)+" scheduling steps, and no schedule of this scenario explored so far does; running threads: "+strings.Join(x.Blocked, ","), x)
+				} else if x.Steps > 10*baseSteps {
 					hangs++
 					c.Violation(o.Prop+"/livelock/"+o.Name, "the execution does not terminate: more than "+strconv.Itoa(x.Steps-1)+" scheduling steps, the default schedule of this scenario takes "+strconv.Itoa(baseSteps)+"; running threads: "+strings.Join(x.Blocked, ","), x)
 				} else {
